@@ -88,3 +88,14 @@ Theorem c16_hash_forwarding :
          ["get"; "gets"; "gat"; "gats"].
 Proof. repeat split; vm_compute; reflexivity. Qed.
 Print Assumptions c16_hash_forwarding.
+
+(* the subscript forms c[k] = v, c[k], del c[k] go through the object's own set / get / delete (bodies read from the source on
+   every run, Gen/Subscripts.v): they inherit everything proved of those methods *)
+From Coq Require Import String.
+From PM Require Import Gen.Subscripts Spec.SubscriptForms.
+Theorem c16_subscripts :
+  forms_of "Client"%string subscript_forms = expected_forms "Client"%string /\
+  forms_of "PooledClient"%string subscript_forms = expected_forms "PooledClient"%string /\
+  forms_of "RetryingClient"%string subscript_forms = expected_forms "RetryingClient"%string.
+Proof. repeat split; reflexivity. Qed.
+Print Assumptions c16_subscripts.
